@@ -63,10 +63,33 @@ def run(ctx):
     ops += ["hw2 wa 2 slowsave", "hw2 u2f 2 slowsave", "hw2 wa 3 slowsave"]
     # the unseal transition is a one-time step too: correct passphrases injected at the same moment
     ops += ["unseal2 %d" % k for k in ([2, 4, 8] if ctx.quick() else [2, 2, 3, 4, 4, 8, 8, 16, 16, 32])]
+    # one TOTP code presented by two or three requests (TOTPAuth / VerifyTOTP in any mix), every interleaving of
+    # their three steps — load returned / spacing test-and-set + evaluation / save — forced on the real handlers
+    # (a request parked between its load and its gate while another runs to completion is one of them)
+    def interleavings(n, k):
+        res = []
+        def rec(prefix, left):
+            if not any(left.values()):
+                res.append(prefix); return
+            for x in sorted(left):
+                if left[x]:
+                    left[x] -= 1; rec(prefix + x, left); left[x] += 1
+        rec("", {chr(65 + i): k for i in range(n)})
+        return res
+    two, three = interleavings(2, 3), interleavings(3, 3)
+    fine_ops = ["fine totp auth,auth %s" % s for s in two]
+    for kinds in ("auth,verify", "verify,auth", "verify,verify"):
+        fine_ops += ["fine totp %s %s" % (kinds, s) for s in (rng.sample(two, 8) if ctx.quick() else two)]
+    for s in rng.sample(three, 16 if ctx.quick() else 400):
+        fine_ops.append("fine totp %s %s" % (",".join(rng.choice(["auth", "verify"]) for _ in range(3)), s))
+    n_fine = len(fine_ops)
+    ops += fine_ops
     impl, log, rc = c.run_harness(ctx, "cmd/keymasterd", "C16", ops, timeout=1500)
     if rc != 0 or len(impl) != len(ops):
         ctx.broken.append("harness TestVerifC16 did not complete (exit %d, %d/%d lines)" % (rc, len(impl), len(ops)))
         return c.finish(ctx)
+    fine_ops, fine_impl = ops[-n_fine:], impl[-n_fine:]
+    ops, impl = ops[:-n_fine], impl[:-n_fine]
     totp_ops, totp_impl = ops[n_pair:], impl[n_pair:]
     ops, impl = ops[:n_pair], impl[:n_pair]
     model = c.run_driver(ctx, "model", ops)
@@ -140,6 +163,24 @@ def run(ctx):
             c.add_violation(ctx, "double-unseal", "%s correct passphrases injected at the same moment: %s acknowledged, state %s "
                             "(served one after another: one 200, signer+Ed25519 signer, 2 published keys, 2 CA certificates, 1 ready signal)" % (
                                 o.split()[1], f[0], " ".join(f[1:])), {"op": o, "impl": a})
+    # fine-grained TOTP schedules: tie to KM.Conc.tRun, and the property's predicate (honoured at most once)
+    # evaluated by the Lean judge on what the implementation answered
+    live = [(o, a) for o, a in zip(fine_ops, fine_impl) if a != "slow"]
+    hist["totp-schedule:slow-round-skipped"] = len(fine_ops) - len(live)
+    if len(live) < len(fine_ops) * 0.8:
+        ctx.broken.append("fine TOTP schedules: %d of %d rounds took longer than the spacing window allows" % (len(fine_ops) - len(live), len(fine_ops)))
+    f_model = c.run_driver(ctx, "model", [o for o, _ in live])
+    c.diff_streams(ctx, "one TOTP code under forced load/gate/save schedules vs KM.Conc.tRun", [o for o, _ in live], [a for _, a in live], f_model)
+    verdicts = c.run_driver(ctx, "judge", ["once " + a for _, a in live])
+    for (o, a), v in zip(live, verdicts):
+        outs = [x for x in a.split() if not x.startswith("stored=")]
+        hist["totp-schedule:honoured=%d/%d" % (outs.count("ok"), len(outs))] += 1
+        if v != "ok":
+            hs = sorted("TOTPAuth" if k == "auth" else "VerifyTOTP" for k, r in zip(o.split()[2].split(","), outs) if r == "ok")
+            c.add_violation(ctx, "double-spend:" + "|".join(hs[:2] if len(hs) >= 2 else ["TOTPAuth", "TOTPAuth"]),
+                            "one TOTP code presented by requests %s under the step schedule %s (n-th letter occurrence = that request's load / "
+                            "spacing gate + evaluation / save) was answered %r: %s" % (o.split()[2], o.split()[3], a, v),
+                            {"op": o, "impl": a, "judge": v})
     if True:   # race detector over the map-touching handlers: supporting search, both tiers (≈10 s when cached)
         sl, slog, src = c.run_harness(ctx, "cmd/keymasterd", "C16Stress", ["stress 20"] if ctx.quick() else ["stress 40"] * 3,
                                       timeout=1500, race=True, tag="s")
@@ -165,7 +206,7 @@ def run(ctx):
     elif orc != 0 or not ol or not all(x.startswith("done") for x in ol):
         ctx.broken.append("harness TestVerifC16Okta did not complete (exit %d, output %r)" % (orc, ol))
     ctx.coverage.update({
-        "evaluations": len(ops) + len(totp_ops), "distinct_nontrivial": len(traces),
+        "evaluations": len(ops) + len(totp_ops) + len(fine_ops), "distinct_nontrivial": len(traces),
         "rule": "pairs of profile-mutating requests (U2F/TOTP token management actions, bootstrap OTP) on one user, each pair under all 6 interleavings of their load and save steps, forced deterministically on the real handlers by a wrapping database/sql driver; outcome (two statuses + final stored profile) compared with KM.Conc.run and with the pair's own two sequential outcomes; non-trivial = distinct realised storage traces",
         "exhaustive": not ctx.quick(), "pairs": len(pairs), "outcome_histogram": dict(hist), "non_serialisable_outcomes": anomalies,
         "lockset_table": {"accesses": len(facts.get("c16_accesses", [])), "unlocked": [a for a in facts.get("c16_accesses", []) if not a["locked"]]},
